@@ -66,7 +66,7 @@ def call(args, timeout=120):
 
 
 def run_case(case, workdir=None):
-    """case = {kind: lex|spans|pipeline|relex|caret, input: str, annotate: bool, ...} -> (rc, output)"""
+    """case = {kind: lex|spans|pipeline|project|relex|caret, input: str | files: [[name, text]..], annotate: bool, ...} -> (rc, output)"""
     workdir = workdir or os.path.join(BUILD, "replays")
     os.makedirs(workdir, exist_ok=True)
     k = case["kind"]
@@ -77,6 +77,37 @@ def run_case(case, workdir=None):
         if k == "pipeline":
             return call(["pipeline", path, "1" if case.get("annotate") else "0"])
         return call([k, path])
+    if k == "project":
+        import shutil
+        d = os.path.join(workdir, "case_project_%d" % os.getpid())
+        shutil.rmtree(d, ignore_errors=True)
+        os.makedirs(d)
+        for name, text in case["files"]:
+            with open(os.path.join(d, name), "w", newline="") as f:
+                f.write(text)
+        r = call(["project", d])
+        shutil.rmtree(d, ignore_errors=True)
+        return r
+    if k == "transpile":
+        # files: [[relative path under the project dir, text]..]; returns the verdict line(s) + the tree of the output directory
+        import shutil
+        d = os.path.join(workdir, "case_transpile_%d" % os.getpid())
+        shutil.rmtree(d, ignore_errors=True)
+        for rel, text in case["files"]:
+            fp = os.path.join(d, rel)
+            os.makedirs(os.path.dirname(fp), exist_ok=True)
+            with open(fp, "w", newline="") as f:
+                f.write(text)
+        rc, txt = call(["transpile", d, case.get("src") or "-", case.get("target") or "-"])
+        out_dir = os.path.join(d, case.get("target") or "target")
+        tree = []
+        for dp, dn, fns in os.walk(d):
+            for fn in fns:
+                rel = os.path.relpath(os.path.join(dp, fn), d)
+                if not any(rel == r for r, _ in case["files"]):
+                    tree.append(rel)
+        shutil.rmtree(d, ignore_errors=True)
+        return rc, (txt or "") + "".join("\nWROTE|%s" % t for t in sorted(tree))
     if k == "relex":
         return call(["relex"])
     if k == "caret":
